@@ -96,6 +96,11 @@ R.macro('CLOSED_EXCEPT', ['s', 'front'], """forall('Task','Task', lambda t, d: i
 
 # (the contract of labtech.tasks:get_direct_dependencies lives in c60_values.py, where its body is verified)
 
+# instance-level closure (C03): every task OBJECT found in the parameters of a processed, non-cached task object is itself
+# processed (hence tracked in task_to_instances and marked with result_meta on completion), except those still in `front`
+R.macro('CLOSED_I', ['s', 'front'], """forall('Inst','Inst', lambda j, i: implies((j in s.processed_task_ids) and (not ucache(Inst_to_Task(j))) and (i in depinsts(j)),
+    (i in s.processed_task_ids) or (i in front)))""")
+
 R.contract('labtech.lab:TaskCoordinator.use_cache',
     self_type='Obj[TaskCoordinator]', params={'task': 'Task'}, returns='Bool', pure=True,
     defn='ucache(task)',
@@ -125,8 +130,9 @@ R.contract(f'{TS}.insert_task',
 
 R.contract(f'{TS}.process_tasks',
     self_type='Obj[TaskState]', params={'tasks': 'List[Inst]'},
-    requires=['PLANINV(self)', 'CLOSED_EXCEPT(self, tasks)'],
+    requires=['PLANINV(self)', 'CLOSED_EXCEPT(self, tasks)', C('CLOSED_I(self, tasks)', 'instances closed except the given ones', serves=('C03',))],
     ensures=['PLANINV(self)',
+             C("CLOSED_I(self, typed_empty('List[Inst]'))", 'every task object inside the parameters of a planned, non-cached task object is tracked', serves=('C03',)),
              C("forall('Task','Task', lambda t, d: implies(d in DD(self)[t], d in self.ALL))", 'closed'),
              C("forall('Inst', lambda i: implies(i in tasks, i in self.processed_task_ids))", 'every given instance processed', serves=('C03',)),
              C("subset(old(self.ALL), self.ALL) and subset(old(self.processed_task_ids), self.processed_task_ids)", 'monotone'),
@@ -140,6 +146,7 @@ R.contract(f'{TS}.process_tasks',
         "forall('Task','Task', lambda t, d: implies(d in DD(self)[t], (d in self.ALL) or exists('Inst', lambda i: ((i in tasks) or (i in all_dependencies)) and (Inst_to_Task(i) == d))))",
         "forall('Inst', lambda i: implies(i in __done__, i in self.processed_task_ids))",
         "subset(old(self.ALL), self.ALL) and subset(old(self.processed_task_ids), self.processed_task_ids)",
+        C("forall('Inst','Inst', lambda j, i: implies((j in self.processed_task_ids) and (not ucache(Inst_to_Task(j))) and (i in depinsts(j)), (i in self.processed_task_ids) or (i in tasks) or (i in all_dependencies)))", 'CLOSED_I over both frontiers', serves=('C03',)),
     ])
 
 # ------------------------------------------------------------------ scheduling decision
